@@ -27,7 +27,7 @@ FLOORS = {"c04_nested_pairs": 40, "c04_entities_judged": 1500, "c04_placeholders
 MUST_REACH = ["AbstractModule.target_sequence", "AbstractVector.target_sequence", "AbstractVector.placeholder_sequence"]
 NEEDS_REGISTRIES = True
 BUDGET_S = {"quick": 900, "thorough": 7200}
-MODES = ["own", "own", "extra-site", "other-class", "mutant"]
+MODES = ["own", "own", "extra-site", "other-class", "mutant", "short-tandem"]
 
 
 def setup(tier):
@@ -100,6 +100,25 @@ def _variants(rng, cls, other_classes, count, run_max):
     for j in range(count):
         mode = MODES[j % len(MODES)]
         src = cls if mode != "other-class" else rng.choice(other_classes)
+        if mode == "short-tandem":
+            # a minimal structure (runs of 0..3 letters) in which one of the cutter's sites is duplicated in tandem,
+            # so that the second copy cuts within a few nucleotides of the first one's cut
+            s = gen.instance(rng, cls.structure(), run_max=3)
+            from ..util import occurrences
+            hits = [(i, site) for i in occurrences(s, site, circular=False)] + [(i, rc(site)) for i in occurrences(s, rc(site), circular=False)]
+            if hits:
+                i, w = rng.choice(hits)
+                at = i + len(w) if rng.random() < 0.5 else i
+                s = s[:at] + w + s[at:]
+            if rng.random() < 0.5:
+                # minimal by construction: two copies of a flanking site in tandem and just enough letters for the other half
+                # of the default structure, so that the reported target body is only 2..5 nt long
+                st, nn, kk = refmodel.geometry(cls.cutter)
+                e = max(0, 2 * nn + 2 * kk + 2 - len(st)) + rng.randint(0, 3)
+                s = (st + st + gen.rand_dna(rng, e) + rc(st)) if rng.random() < 0.5 else (st + gen.rand_dna(rng, e) + rc(st) + rc(st))
+            s += gen.rand_dna(rng, rng.randint(0, 25))
+            yield mode, rot_left(s, rng.randrange(len(s)))
+            continue
         s = gen.instance(rng, src.structure(), run_max=run_max) + gen.rand_dna(rng, rng.randint(0, 25))
         if mode == "extra-site":
             i = rng.randrange(len(s))
